@@ -222,9 +222,26 @@ def run_bounded(prop, tier, seed):
                 item['script'] = os.path.relpath(f, VERIF_ROOT)
                 out.append(item)
         except Exception as e:
+            err = p.stderr if 'p' in dir() else ''
+            frames = re.findall(r'File "([^"]+)", line \d+, in (\S+)', err)
+            if frames and frames[-1][0].startswith(REPO_ROOT + os.sep) and \
+                    '/tests/' not in frames[-1][0]:
+                # the harness was aborted by an exception raised INSIDE the
+                # code under check: that is a failing input of the bounded
+                # check, not a harness error
+                last = err.strip().splitlines()[-1][:200]
+                out.append({'name': os.path.basename(f)[:-3] + ':aborted',
+                            'script': os.path.relpath(f, VERIF_ROOT),
+                            'scope': 'script aborted', 'n': 1,
+                            'failures': [{
+                                'witness': {'script': os.path.basename(f), 'seed': seed, 'traceback': err[-1500:]},
+                                'what': 'exception raised in %s:%s: %s'
+                                        % (os.path.relpath(frames[-1][0], REPO_ROOT), frames[-1][1], last),
+                                'key': 'aborted'}]})
+                continue
             out.append({'name': os.path.basename(f), 'error':
                         '%s: %s' % (type(e).__name__, str(e)[:300]),
-                        'stderr': (p.stderr[-800:] if 'p' in dir() else ''),
+                        'stderr': err[-800:],
                         'failures': [], 'n': 0, 'scope': '?'})
     return out
 
